@@ -140,9 +140,12 @@ def htpasswd_level(ctx):
         f.close()
         try:
             cache = rng.random() < 0.5
+            # the login cache in front of the back-end (C17's subject) must be invisible here too: the file does not change during the
+            # attempts, so with it every answer is still the file's
+            login_cache = rng.random() < 0.35
             conf = config.load()
             conf.update({"auth": {"type": "htpasswd", "htpasswd_filename": f.name, "htpasswd_encryption": scheme,
-                                  "htpasswd_cache": str(cache), "delay": "0", "cache_logins": "False"}}, "verif", privileged=True)
+                                  "htpasswd_cache": str(cache), "delay": "0", "cache_logins": str(login_cache)}}, "verif", privileged=True)
             try:
                 a = auth.load(conf)
             except RuntimeError as e:
@@ -154,6 +157,9 @@ def htpasswd_level(ctx):
                 login = rng.choice(list(entries) + ["nobody", "", "alice "])
                 pw = rng.choice(PWS)
                 attempts.append((login, pw))
+                if login_cache and login in entries and rng.random() < 0.5:
+                    # the same login again with another password, and the first one once more
+                    attempts += [(login, rng.choice(PWS)), (login, pw)]
             reqs = [{"m": "authgate", "op": "htpasswd", "lines": [chars(x) for x in lines], "scheme": scheme, "oracle": rows,
                      "login": chars(l), "pw": chars(p)} for l, p in attempts]
             ans = ctx.driver.ask(reqs) if ctx.driver else [None] * len(reqs)
@@ -163,8 +169,10 @@ def htpasswd_level(ctx):
                 except Exception as e:
                     got = "EXC:" + repr(e)
                 exp = login if (login in entries and truth(scheme, entries[login], pw)) else ""
-                case = {"scheme": scheme, "cache": cache, "lines": lines, "login": login, "password": pw}
-                ctx.case("htpasswd:%s:%s" % (scheme, "ok" if exp else "reject"), sample=dict(case, result=got), key=[i, login, pw],
+                case = {"scheme": scheme, "cache": cache, "login_cache": login_cache, "lines": lines, "login": login, "password": pw,
+                        "attempts_so_far": attempts[:attempts.index((login, pw)) + 1] if login_cache else None}
+                ctx.case("htpasswd:%s:%s%s" % (scheme, "ok" if exp else "reject", ":login-cache" if login_cache else ""), sample=dict(case, result=got),
+                         key=[i, login, pw],
                          nontrivial=bool(exp) or login in entries)
                 if got != exp:
                     ctx.violation("htpasswd login returns %r, the file says %r" % (got, exp), case, exp, got)
